@@ -214,8 +214,8 @@ Proof.
   symmetry. apply Z.eqb_neq. intros ->. apply H59. apply in_or_app. right. left. reflexivity.
 Qed.
 
-Lemma tok_part_lt uf zf base0 semi want x t : no60 x -> no59 x ->
-  tok_part_gen uf zf base0 semi want (x ++ 60 :: t) = None.
+Lemma tok_part_lt uf zf pu base0 semi want x t : no60 x -> no59 x ->
+  tok_part_gen uf zf pu base0 semi want (x ++ 60 :: t) = None.
 Proof.
   intros H60 H59. unfold tok_part_gen.
   pose proof (strto_int_good base0 (x ++ 60 :: t)) as G1.
@@ -224,19 +224,19 @@ Proof.
   pose proof (strtod_good (x ++ 60 :: t)) as G2.
   destruct (strtod_model (x ++ 60 :: t)) as [[b rest_d] er]. cbn [fst snd] in G2.
   rewrite (at_term_lt semi x t rest_d H60 H59 G2).
-  rewrite !andb_false_r. cbn [andb]. destruct (negb _); reflexivity.
+  rewrite !andb_false_r. cbn [andb]. destruct (_ && _); reflexivity.
 Qed.
 
 (* scalar_code_not_number: a token  name<...  is never read as a number *)
-Theorem tok_lt_not_number uf zf base0 wr wi x t : no60 x -> no59 x ->
-  tok_to_num_gen uf zf base0 wr wi (x ++ 60 :: t) = NotNum.
+Theorem tok_lt_not_number uf zf pu base0 wr wi x t : no60 x -> no59 x ->
+  tok_to_num_gen uf zf pu base0 wr wi (x ++ 60 :: t) = NotNum.
 Proof. intros H60 H59. unfold tok_to_num_gen. rewrite tok_part_lt by assumption. reflexivity. Qed.
 
 (* for a token without ';' the verdict "not a number" does not depend on which
    pointers the caller passes: the writer's test (all NULL) and the reader's
    (re/im wanted) agree *)
-Lemma tok_part_none_want uf zf base0 semi x :
-  tok_part_gen uf zf base0 semi false x = None -> forall want, tok_part_gen uf zf base0 semi want x = None.
+Lemma tok_part_none_want uf zf pu base0 semi x :
+  tok_part_gen uf zf pu base0 semi false x = None -> forall want, tok_part_gen uf zf pu base0 semi want x = None.
 Proof.
   unfold tok_part_gen. destruct (strto_int base0 x) as [[neg mag] rest].
   destruct (strtod_model x) as [[b rest_d] er].
@@ -245,8 +245,8 @@ Proof.
   intros H want. cbn [andb]. exact H.
 Qed.
 
-Lemma tok_part_some uf zf base0 semi want s re rest :
-  tok_part_gen uf zf base0 semi want s = Some (re, rest) -> at_term semi rest = true /\ good s rest.
+Lemma tok_part_some uf zf pu base0 semi want s re rest :
+  tok_part_gen uf zf pu base0 semi want s = Some (re, rest) -> at_term semi rest = true /\ good s rest.
 Proof.
   unfold tok_part_gen.
   pose proof (strto_int_good base0 s) as G1. pose proof (strtod_good s) as G2.
@@ -254,24 +254,25 @@ Proof.
   generalize ((- two63 <=? (if neg then - mag else mag)) && ((if neg then - mag else mag) <? two63)).
   generalize (zf && want && ((if neg then - mag else mag) =? 0)).
   generalize (mag <? two64).
-  generalize (negb er || uf && negb (dbl_is_inf b)).
+  generalize (negb er || erange_ok uf b).
+  generalize (negb (pu && neg)).
   generalize (PUInt (if neg then (two64 - mag) mod two64 else mag)).
   generalize (PInt (if neg then - mag else mag)).
-  intros p1 p2 b1 b2 b3 b4.
-  destruct b1, b2, b3, b4; destruct (at_term semi r1) eqn:A1; destruct (at_term semi rd) eqn:A2;
+  intros p1 p2 b0 b1 b2 b3 b4.
+  destruct b0, b1, b2, b3, b4; destruct (at_term semi r1) eqn:A1; destruct (at_term semi rd) eqn:A2;
     cbn [negb andb orb]; intros H; try discriminate; injection H as _ <-; split; assumption.
 Qed.
 
-Lemma tok_not_number_want uf zf base0 x : no59 x ->
-  tok_to_num_gen uf zf base0 false false x = NotNum -> forall wr wi, tok_to_num_gen uf zf base0 wr wi x = NotNum.
+Lemma tok_not_number_want uf zf pu base0 x : no59 x ->
+  tok_to_num_gen uf zf pu base0 false false x = NotNum -> forall wr wi, tok_to_num_gen uf zf pu base0 wr wi x = NotNum.
 Proof.
   intros H59 H wr wi. unfold tok_to_num_gen in *.
-  destruct (tok_part_gen uf zf base0 true false x) as [[re rest]|] eqn:E.
+  destruct (tok_part_gen uf zf pu base0 true false x) as [[re rest]|] eqn:E.
   - (* a real part was read: it ended the token (no ';' in x), so the result is a number *)
-    exfalso. destruct (tok_part_some _ _ _ _ _ _ _ _ E) as [A G].
+    exfalso. destruct (tok_part_some _ _ _ _ _ _ _ _ _ E) as [A G].
     rewrite (at_term_suffix true x rest H59 G) in A.
     destruct rest; [discriminate | discriminate].
-  - rewrite (tok_part_none_want _ _ _ _ _ E). reflexivity.
+  - rewrite (tok_part_none_want _ _ _ _ _ _ E). reflexivity.
 Qed.
 
 (* ------------------------------------------------------------------ *)
@@ -366,17 +367,17 @@ Proof.
   - destruct (looks_numeric (w_base0 c) n) eqn:L; cbn [map piece_tok List.concat app]; rewrite ?app_nil_r.
     + (* number-like name: "<0>" was forced *)
       split.
-      * apply (tok_lt_not_number _ _ _ _ _ n (B"0>")); assumption.
+      * apply (tok_lt_not_number _ _ _ _ _ _ n (B"0>")); assumption.
       * rewrite Hin. change (B "<0>") with (60 :: print_Z 0 ++ [62]).
         apply carray_check_index; [assumption | lia].
     + split.
       * apply tok_not_number_want; [assumption|].
         unfold looks_numeric, tok_to_num in L.
-        destruct (tok_to_num_gen tok_accepts_underflow tok_zero_via_strtod (w_base0 c) false false n); congruence.
+        destruct (tok_to_num_gen tok_erange_rule tok_zero_via_strtod tok_ull_positive_only (w_base0 c) false false n); congruence.
       * rewrite <- (app_nil_r n) at 1. rewrite Hin, app_nil_r. apply carray_check_none. assumption.
   - cbn [map piece_tok List.concat app].
     change (B "<") with [60]. change (B ">") with [62]. cbn [app]. rewrite !app_nil_r.
     split.
-    + apply (tok_lt_not_number _ _ _ _ _ n (print_Z i ++ [62])); assumption.
+    + apply (tok_lt_not_number _ _ _ _ _ _ n (print_Z i ++ [62])); assumption.
     + rewrite Hin. apply carray_check_index; [assumption | lia].
 Qed.
